@@ -1,13 +1,13 @@
 #!/bin/bash
-# tools/validate_seed.sh <property-id> <mN> : validates /tmp/seed-<ID>/_out/<mN>.{diff,_demo.rs}
+# tools/validate_seed.sh <property-id> <mN> [dir-prefix=seed] [name-tag] : validates /tmp/<prefix>-<ID>/_out/<mN>.{diff,_demo.rs}
 # in a scratch worktree: patch applies, 41-test suite passes with it, demo fails with it and
 # passes without it.  On success copies the files to /verif/seeded/<ID>-<mN>/ with meta.json.
 set -u
-ID="$1"; M="$2"
-SRC="/tmp/seed-$ID/_out"
-WT="/tmp/val-$ID-$M"
-OUT="/verif/seeded/$ID-$M"
-LOG="/verif/work/validate-$ID-$M.log"
+ID="$1"; M="$2"; PREFIX="${3:-seed}"; TAG="${4:-}"
+SRC="/tmp/$PREFIX-$ID/_out"
+WT="/tmp/val-$ID-$TAG$M"
+OUT="/verif/seeded/$ID-$TAG$M"
+LOG="/verif/work/validate-$ID-$TAG$M.log"
 mkdir -p /verif/work /verif/seeded
 [ -f "$SRC/$M.diff" ] || { echo "$ID $M: no diff"; exit 1; }
 git -C /repo worktree remove --force "$WT" >/dev/null 2>&1
